@@ -32,7 +32,8 @@ RULE = ("exact streams: seeded small-integer/dyadic transformations (float32/flo
         "broadcast combinations and malformed shapes through apply/as_matrix/_get_rotation_matrices/"
         "superimpose (svd tabulated) and the outlier/homolog anchor loops (inner fit stubbed), compared "
         "bit-exactly with the Lean model; float stream: random, planar, collinear, single-atom, duplicate, "
-        "symmetric and mirrored point sets with rigid motions, noise 0..10, masks and stack/array "
+        "symmetric and mirrored point sets (coordinate extents 1e-3..1e4, float32/float64 input) with rigid motions, "
+        "noise 0..10, masks (unselected atoms also NaN/inf/huge), multi-step histories on one transformation object, stack/array "
         "combinations through the unmodified functions; multi-chain protein/RNA complexes (2-4 chains, missing "
         "terminal/internal residues in any chain of either structure, rigid copies, single models and stacks) through "
         "the unmodified superimpose_homologs with a synthetic CCD, and their _find_matching_anchors result against "
@@ -204,7 +205,11 @@ def gen_lean():
 
     # --- as_matrix: return target @ rot @ center
     f = _find_func(tree, "as_matrix", "AffineTransformation")
-    ret = [n for n in ast.walk(f) if isinstance(n, ast.Return)][-1].value
+    prods = [n for n in ast.walk(f) if isinstance(n, ast.BinOp) and isinstance(n.op, ast.MatMult)
+             and isinstance(n.left, ast.BinOp) and isinstance(n.left.op, ast.MatMult)]
+    if len(prods) != 1:
+        raise ValueError("as_matrix does not contain exactly one left-nested product of three matrices")
+    ret = prods[0]          # returned directly or stored first: either way this is the matrix handed out
     order = []
 
     def walk_mm(e):
@@ -928,8 +933,9 @@ def _gen_fit(rng, search=False):
     import numpy as np
     shape = rng.choice(["generic", "generic", "generic", "planar", "collinear", "identical", "lattice", "polygon", "cube"])
     n = rng.choice([1, 1, 2, 3, 4, 5, 8, 13, 30])
-    scale = rng.choice([0.5, 1, 1, 5, 20])
-    offset = rng.choice([0, 0, 10, 100])
+    # coordinate extents from 1e-3 (nm / fractional units) to 1e4; everything else is relative to the extent
+    scale = rng.choice([0.5, 1, 1, 5, 20, 1e-3, 1e-2, 0.1, 1e3, 1e4])
+    offset = scale * rng.choice([0, 0, 10, 100])
     combo = rng.choice(["aa", "aa", "aa", "as", "as", "ss", "ss", "s1s1", "s1a", "as1", "sa"])
     mf = {"aa": 0, "as": 0, "ss": rng.choice([2, 3]), "s1s1": 1, "s1a": 1, "as1": 0, "sa": rng.choice([2, 3])}[combo]
     mm = {"aa": 0, "as": rng.choice([2, 4]), "ss": mf, "s1s1": 1, "s1a": 0, "as1": 1, "sa": 0}[combo]
@@ -964,9 +970,17 @@ def _gen_fit(rng, search=False):
     rigid = (noise == 0) and (not mirror or shape in ("planar", "collinear", "identical", "polygon") or n <= 3) \
         and combo in ("aa", "as", "s1s1", "s1a", "as1")
     # an exact rigid copy must be exact *after* the float32 rounding of the inputs: tolerance covers that
-    return {"kind": "fit", "shape": shape, "combo": combo, "noise": noise, "mirror": mirror, "rigid": rigid,
+    case = {"kind": "fit", "shape": shape, "combo": combo, "noise": noise, "mirror": mirror, "rigid": rigid,
+            "scale": scale, "dtype": rng.choice(["float32", "float32", "float64"]),
             "fixed": fixed32.tolist(), "mobile": mobile32.tolist(), "mask": mask,
             "atoms": rng.random() < 0.3, "pseed": rng.randint(0, 2**31)}
+    if mask is not None and not all(mask):
+        # atoms OUTSIDE the mask must not matter: unresolved atoms often carry NaN / inf / placeholder coordinates
+        outside = [i for i, b in enumerate(mask) if not b]
+        case["poison"] = {"where": rng.choice(["fixed", "mobile", "both"]),
+                          "idx": sorted(rng.sample(outside, rng.randint(1, len(outside)))),
+                          "value": rng.choice(["nan", "nan", "inf", "-inf", "huge", "other"])}
+    return case
 
 
 def _gen_woo_float(rng):
@@ -1078,8 +1092,9 @@ def _rmsd64(a, b):
 def _tol(*arrays):
     """Absolute tolerance on coordinates / RMSD for float32 pipelines on data of this magnitude."""
     import numpy as np
-    s = max([1.0] + [float(np.abs(np.asarray(a, dtype=np.float64)).max()) for a in arrays if np.size(a)])
-    return 4e-6 * s        # ~10x the largest error observed on the unchanged tree (calibrated over 1500 cases)
+    s = max([1e-30] + [float(np.abs(np.asarray(a, dtype=np.float64)).max()) for a in arrays if np.size(a)])
+    return 4e-6 * s        # relative to the coordinate magnitude (extents 1e-3 .. 1e4 are generated);
+    #                        ~10x the largest error observed on the unchanged tree (calibrated over 1500 cases)
 
 
 def _allowed_rmsd(X, Y0, ref_rmsd, tol):
@@ -1101,8 +1116,8 @@ def _allowed_rmsd(X, Y0, ref_rmsd, tol):
     return math.sqrt(ref_rmsd ** 2 + excess / len(X)) + tol
 
 
-def _check_transform(T, X, tag, v):
-    """matrix form == apply, and model-wise action, on the real objects."""
+def _check_transform(T, X, tag, v, history=True):
+    """matrix form == apply, and model-wise action, on the real objects (and, once, the multi-step history)."""
     import numpy as np
     S = _mod()
     Y = T.apply(X)
@@ -1115,7 +1130,7 @@ def _check_transform(T, X, tag, v):
     Y3 = Yc if Yc.ndim == 3 else Yc[None]
     M = T.as_matrix()
     m = T.rotation.shape[0]
-    tol = _tol(X3, Y3)
+    tol = _tol(X3, Y3, T.center_translation, T.target_translation)
     if M.shape != (m, 4, 4):
         v.append((f"C16/{tag}/as_matrix-shape", f"as_matrix shape {M.shape} for {m} models"))
         return
@@ -1133,6 +1148,55 @@ def _check_transform(T, X, tag, v):
         if X3.shape[1] and np.abs(ref - Y3[k]).max() > tol:
             v.append((f"C16/{tag}/not-model-wise", f"model {k}: apply differs from R_k(x + c_k) + t_k by {np.abs(ref - Y3[k]).max():.3g}"))
             break
+    else:
+        if history:
+            _check_freshness(T, X, tag, v)
+
+
+def _check_freshness(T, X, tag, v):
+    """A multi-step history on ONE transformation object: results handed out are the caller's own (scribbling over
+    them changes nothing later), inputs are not modified, and `as_matrix()` follows the public attributes."""
+    import numpy as np
+    S = _mod()
+    Xc0 = np.array(S.coord(X), copy=True)
+    T2 = S.AffineTransformation(np.array(T.center_translation, copy=True), np.array(T.rotation, copy=True),
+                                np.array(T.target_translation, copy=True))
+    M1 = np.array(T2.as_matrix(), copy=True)
+    Y1 = T2.apply(X)
+    Y1c = np.array(Y1 if isinstance(Y1, np.ndarray) else Y1.coord, copy=True)
+    # scribble over everything that was handed out
+    Ma = T2.as_matrix()
+    Ma[...] = 12345.0
+    Ya = T2.apply(X)
+    (Ya if isinstance(Ya, np.ndarray) else Ya.coord)[...] = -777.0
+    M2 = T2.as_matrix()
+    Y2 = T2.apply(X)
+    Y2c = Y2 if isinstance(Y2, np.ndarray) else Y2.coord
+    same = lambda a, b: a.shape == b.shape and np.array_equal(a, b, equal_nan=True)   # noqa: E731
+    if not same(np.asarray(M2), M1):
+        v.append((f"C16/{tag}/as_matrix-returns-shared-array", "editing the array returned by as_matrix() changes the next as_matrix()"))
+    if not same(np.asarray(Y2c), Y1c):
+        v.append((f"C16/{tag}/apply-returns-shared-array", "editing the coordinates returned by apply() changes the next apply()"))
+    if not same(np.asarray(S.coord(X)), Xc0):
+        v.append((f"C16/{tag}/apply-modifies-input", "apply()/as_matrix() modified the input coordinates"))
+    if v:
+        return
+    # change each public attribute (re-assignment and in-place edit): as_matrix() must follow, i.e. still equal apply()
+    m = T2.rotation.shape[0]
+    perm = np.array([[0, 0, 1], [1, 0, 0], [0, 1, 0]], dtype=T2.rotation.dtype)
+    steps = [("target_translation", lambda: setattr(T2, "target_translation", T2.target_translation + np.array([1.0, -2.0, 0.5], dtype=T2.target_translation.dtype))),
+             ("center_translation", lambda: T2.center_translation.__iadd__(np.array([-0.25, 0.5, 2.0], dtype=T2.center_translation.dtype))),
+             ("rotation", lambda: setattr(T2, "rotation", np.stack([perm @ T2.rotation[k] for k in range(m)])))]
+    for name, change in steps:
+        T2.as_matrix()
+        change()
+        before = len(v)
+        _check_transform(T2, X, tag, v, history=False)
+        if len(v) > before:
+            v[before] = (f"C16/{tag}/as_matrix-stale-after-attribute-change",
+                         f"after changing `{name}` of a transformation whose as_matrix() had been called: " + v[before][1])
+            del v[before + 1:]
+            return
 
 
 def _perturbations(prng, count):
@@ -1154,6 +1218,37 @@ def _perturbations(prng, count):
     return mats
 
 
+def _check_unmasked_irrelevant(case, fixed, mobile, mask):
+    """'No other placement has a lower RMSD over the MASKED atoms': atoms outside the mask must not matter.
+    The transformation of the masked fit must be bit-identical to the fit of the selected sub-arrays alone, also
+    when unselected atoms carry NaN / inf / huge / different coordinates."""
+    import numpy as np
+    S = _mod()
+    p = case["poison"]
+    val = {"nan": np.nan, "inf": np.inf, "-inf": -np.inf, "huge": 3e37}.get(p["value"])
+    fx, mb = fixed.copy(), mobile.copy()
+    for arr, name in ((fx, "fixed"), (mb, "mobile")):
+        if p["where"] in (name, "both"):
+            if val is None:
+                arr[..., p["idx"], :] = arr[..., p["idx"], :][..., ::-1] * 1.5 + 3.0
+            else:
+                arr[..., p["idx"], :] = val
+    try:
+        with np.errstate(all="ignore"):
+            _, Tm = S.superimpose(fx, mb, atom_mask=mask)
+            _, Ts = S.superimpose(fixed[..., mask, :], mobile[..., mask, :])
+    except Exception as e:  # noqa: BLE001
+        return [("C16/superimpose/unmasked-atoms-influence-fit",
+                 f"{type(e).__name__}: {e} — {p['value']} in {p['where']} atom(s) {p['idx']} OUTSIDE the mask; all selected atoms are finite")]
+    for a, b, nm in ((Tm.rotation, Ts.rotation, "rotation"), (Tm.center_translation, Ts.center_translation, "center_translation"),
+                     (Tm.target_translation, Ts.target_translation, "target_translation")):
+        if a.shape != b.shape or not np.array_equal(a, b):
+            return [("C16/superimpose/unmasked-atoms-influence-fit",
+                     f"{nm} of the masked fit differs from the fit of the selected atoms alone ({p['value']} in {p['where']} "
+                     f"atom(s) {p['idx']} outside the mask): {np.asarray(a).ravel()[:4].tolist()} vs {np.asarray(b).ravel()[:4].tolist()}")]
+    return []
+
+
 def _oracle_fit(case):
     import random
     import numpy as np
@@ -1162,10 +1257,15 @@ def _oracle_fit(case):
     fixed = np.array(case["fixed"], dtype=np.float32)
     mobile = np.array(case["mobile"], dtype=np.float32)
     mask = None if case.get("mask") is None else np.array(case["mask"], dtype=bool)
-    F, M = (fixed, mobile) if not case.get("atoms") else (_as_atoms(fixed), _as_atoms(mobile))
+    dt = case.get("dtype", "float32")
+    F, M = (fixed.astype(dt), mobile.astype(dt)) if not case.get("atoms") else (_as_atoms(fixed), _as_atoms(mobile))
     f3 = fixed if fixed.ndim == 3 else fixed[None]
     m3 = mobile if mobile.ndim == 3 else mobile[None]
     expect_reject = m3.shape[0] == 1 and f3.shape[0] > 1
+    if case.get("poison") and mask is not None and not expect_reject:
+        pv = _check_unmasked_irrelevant(case, fixed, mobile, mask)
+        if pv:
+            return pv
     svd_log = []
     try:
         with _patched(np=_SpyNp(svd_log)):
@@ -1248,12 +1348,14 @@ def _oracle_fit(case):
         # first-order certificate: R·H symmetric with pairwise non-negative eigenvalue sums (H from centred sets)
         Hm = Yc.T @ (X - cx)                      # after fitting the optimal residual rotation is the identity
         asym = np.abs(Hm - Hm.T).max()
-        hs = max(1.0, np.abs(Hm).max())
-        if asym > 4e-5 * hs * max(1.0, math.sqrt(n)):
+        hs = max(1e-300, np.abs(Hm).max(), np.abs(X - cx).max() * np.abs(Yc).max())
+        # float32 SVD noise relative to |H|, plus the coordinate rounding (tol) propagated through H = Σ y·xᵀ
+        cert_tol = 4e-5 * hs * max(1.0, math.sqrt(n)) + 4 * tol * n * max(np.abs(X - cx).max(), np.abs(Yc).max())
+        if asym > cert_tol:
             v.append(("C16/superimpose/certificate-not-symmetric", f"model {k}: |H - Ht| = {asym:.3g} (scale {hs:.3g})"))
             break
         ev = np.linalg.eigvalsh((Hm + Hm.T) / 2)
-        if ev[0] + ev[1] < -4e-5 * hs * max(1.0, math.sqrt(n)):
+        if ev[0] + ev[1] < -cert_tol:
             v.append(("C16/superimpose/certificate-negative", f"model {k}: eigenvalues {ev.tolist()}"))
             break
     return v
